@@ -632,6 +632,59 @@ def t12(run: Run, prog: Program):
     run.floor("T12 missing-value masks", n, 1)
 
 
+def t13(run: Run, prog: Program):
+    """A plot class that computes a missing-value mask applies it in every
+    method that rebuilds its matrix: each writer of the matrix cell reads
+    `missing_value_indices` (directly or through a helper).  A sibling that does
+    not cannot honour 'never recurrent when either state holds a missing
+    value', whatever its way of choosing neighbours."""
+    n = 0
+    for C in sorted((c for c in prog.classes.values() if prog.is_subclass(c, PLOT_ROOT)),
+                    key=lambda c: c.name):
+        M = _matrix_cell(prog, C)
+        if M is None:
+            continue
+        has_mask = any(
+            isinstance(st, ast.Assign) and any(
+                isinstance(t, ast.Attribute) and t.attr == "missing_value_indices"
+                for t in st.targets)
+            for f in C.methods.values() for st in ast.walk(f.node))
+        if not has_mask:
+            continue
+        for name, f in sorted(C.methods.items()):
+            if f.kind != "method" or name.startswith("__"):
+                continue
+            try:
+                t = prog.tree(f, C, {})
+            except AnalysisError:
+                continue
+            # stores of the method itself (`self.R = ...` runs the property setter)
+            own = [e for e in iter_events(t) if e.kind in ("write", "assign")
+                   and e.cell in (M, "_" + M)
+                   and (e.func is f or e.func.kind == "setter")]
+            calls_sibling = any(
+                isinstance(c, ast.Call) and isinstance(c.func, ast.Attribute)
+                and c.func.attr.startswith("set_") for c in ast.walk(f.node))
+            if not own or (calls_sibling and not any(e.func is f for e in own) and
+                           not any(isinstance(st, ast.Assign) and any(
+                               isinstance(tg, ast.Attribute) and tg.attr == M
+                               for tg in st.targets) for st in ast.walk(f.node))):
+                continue
+            n += 1
+            reads = {e.cell for e in iter_events(t) if e.kind == "read"}
+            ok = "missing_value_indices" in reads
+            run.oblige("T13", f"{f.qualname}:applies-mask", ok, sample={
+                "where": f.where, "matrix": M})
+            if not ok:
+                run.add("T13", f"{f.qualname}/mask-not-applied", own[0].where,
+                        f"{f.qualname} rebuilds `{M}` without consulting "
+                        f"`missing_value_indices`, which the sibling constructions of "
+                        f"{C.name} apply as zero rows and columns: with "
+                        f"missing_values=True a state that holds a missing value is "
+                        f"marked recurrent")
+    run.floor("T13 matrix builders of classes with a missing-value mask", n, 3)
+
+
 def t7(run: Run, prog: Program):
     """Size provenance of block assemblies: when a matrix block `M[:S, ...] =
     self.P.<matrix>()` is sized by the stored size S, S must have been measured
@@ -850,6 +903,8 @@ def t6(run: Run, cy: CyProgram):
 
 
 def check(run: Run, prog: Program, cy: CyProgram, sites=None):
+    run.rule("T13", "every method of a plot class with a missing-value mask that "
+             "rebuilds the matrix applies the mask")
     run.rule("T12", "the missing-value mask of a recurrence plot is computed on the "
              "embedded states, not on the raw samples")
     run.rule("T11", "a size attribute measured on the freshly built matrix is not "
@@ -892,5 +947,6 @@ def check(run: Run, prog: Program, cy: CyProgram, sites=None):
     t7(run, prog)
     t11(run, prog)
     t12(run, prog)
+    t13(run, prog)
     t8(run, cy)
     t9(run, prog)
